@@ -467,9 +467,12 @@ func (s *Session) Serve(h Handler) (err error) {
 	}()
 
 	for {
+		s.stateMutex.RLock()
+		inCtx := s.in.ctx
+		s.stateMutex.RUnlock()
 		select {
-		case <-s.in.ctx.Done():
-			return s.in.ctx.Err()
+		case <-inCtx.Done():
+			return inCtx.Err()
 		default:
 		}
 		err := handleInputStream(s, h)
@@ -912,8 +915,12 @@ func (s *Session) RemoteAddr() jid.JID {
 // as closed and any blocking calls to Serve will return an error.
 // This is normally called just before a call to Close.
 func (s *Session) SetCloseDeadline(t time.Time) error {
+	// The context is read by Serve and canceled when the input stream is closed,
+	// both of which may happen concurrently with a call to SetCloseDeadline.
+	s.stateMutex.Lock()
 	oldCancel := s.in.cancel
 	s.in.ctx, s.in.cancel = context.WithDeadline(context.Background(), t)
+	s.stateMutex.Unlock()
 	if oldCancel != nil {
 		oldCancel()
 	}
